@@ -117,3 +117,18 @@ Proof.
   split. { vm_compute. reflexivity. }
   unfold legit, acc_fits. tauto.
 Qed.
+
+(* the current source hands attribute-request arguments to the helpers by index (computed over the generated fact) *)
+Lemma attr_arguments_indexed : attr_requests_index_arguments = true.
+Proof. vm_compute. reflexivity. Qed.
+
+(* seeded change C02_6: with *vargs a surplus falsy argument switches the exposure test off *)
+Lemma star_args_refuted :
+  serve is_private_attribute q_star_only w1_shape w7_request = ([(w_secret, AGet)], RepResult) /\
+  ~ explicitly_exposed is_private_attribute w1_shape w_secret /\
+  serve is_private_attribute q_star_only w1_shape (strip_surplus w7_request) = ([], RepError).
+Proof.
+  split. { vm_compute. reflexivity. }
+  split. { unfold explicitly_exposed. simpl. intros [[H _]|H]; discriminate. }
+  vm_compute. reflexivity.
+Qed.
